@@ -10,6 +10,8 @@ import os
 import shutil
 import tempfile
 
+import copy
+import pickle
 import numpy as np
 
 import pyPRISM
@@ -219,6 +221,17 @@ def run_case(ctx, case):
         if kk is not None:
             if expect == 'match':
                 kk[:] = kk + 1.0        # an object that kept a reference to the caller's k would now reject
+    # ---- the object that is evaluated is often a COPY of the one the user made (table assignment and PRISM.__init__ deep-copy; a job may be pickled)
+    cp_kind = ['none', 'none', 'deepcopy', 'pickle', 'table'][case['seed'] % 5]
+    if cp_kind == 'deepcopy':
+        om = copy.deepcopy(om)
+    elif cp_kind == 'pickle':
+        om = pickle.loads(pickle.dumps(om))
+    elif cp_kind == 'table':
+        tb = pyPRISM.PairTable(['A'], 'omega')
+        tb['A', 'A'] = om
+        om = tb['A', 'A']
+    ctx.count('evaluated_object', cp_kind)
     # ---- stage 1: calculate
     stage = None
     try:
@@ -249,15 +262,21 @@ def run_case(ctx, case):
     # ---- the same omega object evaluated again on ANOTHER grid: the verdict is about that grid, not about the first call
     if outcome == 'returned' and expect == 'match' and rng.random() < 0.6:
         ctx.hook('reuse_on_other_grid')
-        mode = str(rng.choice(['longer', 'shorter', 'rescaled'] if has_k else ['longer', 'shorter']))
-        if mode == 'longer':
+        mode = str(rng.choice(['longer', 'shorter', 'rescaled', 'edited_in_place'] if has_k else ['longer', 'shorter']))
+        if mode == 'edited_in_place':
+            # the very array object that was accepted a moment ago, changed in place by its owner
+            kk2 = np.array(k)
+            om.calculate(kk2)
+            kk2 *= 1.01
+            k2 = kk2
+        elif mode == 'longer':
             k2 = np.concatenate([k, k[-1] + dom.dk * np.arange(1, 4)])
         elif mode == 'shorter':
             k2 = k[:-1].copy()
         else:
             k2 = k * 1.01
         try:
-            out2 = om.calculate(np.array(k2))
+            out2 = om.calculate(k2 if mode == 'edited_in_place' else np.array(k2))
             ctx.violation('tab:mismatch-accepted:second-call-other-grid', '%s object evaluated first on its own grid and then on a %s grid returned values instead of raising' % (src, mode)) if not (src == 'file1') else None
         except Exception as e:   # noqa
             if not isinstance(e, (AssertionError, ValueError, IndexError, TypeError)):
